@@ -29,6 +29,8 @@ def prepare():
     if not os.path.exists(REPO):
         sh("git -C /repo worktree add --detach %s HEAD" % REPO)
     sh("git checkout -- . && git clean -fdq", cwd=REPO)
+    head = sh("git -C /repo rev-parse HEAD")[1].strip()
+    sh("git checkout -q --detach %s" % head, cwd=REPO)  # the hooks the harness needs are those of /repo's HEAD
     sh("rsync -a --delete --exclude .git --exclude .cache --exclude 'harness/target' --exclude evidence --exclude seeded /verif/ %s/" % VERIF)
     os.makedirs(VERIF + "/evidence", exist_ok=True)
     p = VERIF + "/harness/Cargo.toml"
